@@ -42,8 +42,15 @@ Definition shapes_ok (sh : shapes) : bool :=
   mcalls_eqb (sh_exit sh) [MFlush; MClose] && mcalls_eqb (sh_del sh) [MClose] && sh_avro_close_flushes sh
   && negb (sh_avro_flush_placeholder sh) && sh_avro_close_placeholder sh && sh_rotate_counter sh.
 (* SplitWriter.write: `written >= count` -> flush, close, written = 0, new writer *)
+Definition stdout_vals_ok (vals : option (list string)) (allowed : list string) : bool :=
+  match vals with
+  | Some vs => forallb (fun v => existsb (String.eqb v) allowed) vs
+  | None => false
+  end.
+(* ... and only a target whose netloc is "" or "-" AND whose path is "" is taken for stdout *)
 Definition split_shapes_ok (sh : shapes) : bool :=
-  sh_split_ge sh && rollsteps_eqb (sh_split_roll sh) [RFlush; RClose; RReset; RNew].
+  sh_split_ge sh && rollsteps_eqb (sh_split_roll sh) [RFlush; RClose; RReset; RNew]
+  && stdout_vals_ok (sh_split_stdout_netloc sh) [""; "-"]%string && stdout_vals_ok (sh_split_stdout_path sh) [""]%string.
 
 Lemma shapes_ok_all sh : shapes_ok sh = true ->
   (sh_exit sh = [MFlush; MClose] /\ sh_del sh = [MClose] /\ sh_avro_close_flushes sh = true) /\
@@ -64,7 +71,30 @@ Proof. intros H. apply shapes_ok_all in H. tauto. Qed.
 Lemma split_shapes_ok_inv sh : split_shapes_ok sh = true ->
   sh_split_ge sh = true /\ sh_split_roll sh = [RFlush; RClose; RReset; RNew].
 Proof.
-  unfold split_shapes_ok. intros H. apply andb_prop in H. destruct H as [H1 H2]. split; auto using rollsteps_eqb_eq.
+  unfold split_shapes_ok. intros H. apply andb_prop in H. destruct H as [H _]. apply andb_prop in H. destruct H as [H _].
+  apply andb_prop in H. destruct H as [H1 H2]. split; auto using rollsteps_eqb_eq.
+Qed.
+
+(* which targets are files: everything but (netloc "" or "-", empty path) *)
+Definition file_target (netloc path : string) : bool :=
+  negb (existsb (String.eqb netloc) [""; "-"]%string) || negb (String.eqb path "").
+
+Lemma part_test_allowed vals allowed x : stdout_vals_ok vals allowed = true -> part_test vals x = true ->
+  existsb (String.eqb x) allowed = true.
+Proof.
+  destruct vals as [vs|]; cbn; [|discriminate]. intros Hall Hx.
+  apply existsb_exists in Hx. destruct Hx as (v & Hin & Hv). apply String.eqb_eq in Hv. subst v.
+  rewrite forallb_forall in Hall. apply Hall. exact Hin.
+Qed.
+
+Lemma file_target_not_stdout sh netloc path : split_shapes_ok sh = true -> file_target netloc path = true ->
+  split_is_stdout sh netloc path = false.
+Proof.
+  unfold split_shapes_ok. intros H Hf. apply andb_prop in H. destruct H as [H Hp]. apply andb_prop in H. destruct H as [_ Hn].
+  unfold split_is_stdout. destruct (part_test (sh_split_stdout_netloc sh) netloc) eqn:E1; [|reflexivity].
+  destruct (part_test (sh_split_stdout_path sh) path) eqn:E2; [|reflexivity]. exfalso.
+  pose proof (part_test_allowed _ _ _ Hn E1) as A1. pose proof (part_test_allowed _ _ _ Hp E2) as A2.
+  unfold file_target in Hf. rewrite A1 in Hf. cbn in A2. rewrite orb_false_r in A2. rewrite A2 in Hf. discriminate.
 Qed.
 
 (* ------------------------------------------------------------------------------------------------ *)
@@ -797,7 +827,7 @@ Lemma split_init_inv : split_inv (split_init k) [] [].
 Proof. unfold split_inv, split_init, split_new. cbn. repeat split; auto. Qed.
 
 Lemma split_write_inv st full cur r : split_inv st full cur ->
-  exists st', split_write sh batch k limit st r = (st', Ok) /\
+  exists st', split_write sh batch k limit false st r = (st', Ok) /\
     if Nat.leb limit (List.length (cur ++ [r]))
     then split_inv st' (full ++ [cur ++ [r]]) []
     else split_inv st' full (cur ++ [r]).
@@ -833,7 +863,7 @@ Qed.
 
 (* closing the split writer: with-exit flushes the last part first *)
 Lemma split_finish st full cur c : split_inv st full cur -> is_closing c = true ->
-  exists st', split_step sh batch k limit st c = (st', Ok) /\
+  exists st', split_step sh batch k limit false st c = (st', Ok) /\
     s_cur st' = None /\ s_done st' = indexed 0 (map part_file full ++ [file_after cur (inner_close c)]).
 Proof.
   intros (Hc & Hw & Hl & Hf & Hd) Hcl. destruct (shapes_ok_inv sh SH) as (He & Hdel & _).
@@ -862,7 +892,7 @@ Definition split_spec_files (full : list (list rec)) (cur rs : list rec) (c : op
   map part_file (full ++ removelast (chunks limit cur rs)) ++ [file_after (last (chunks limit cur rs) []) (inner_close c)].
 
 Lemma split_run_spec rs c : is_closing c = true -> forall st full cur, split_inv st full cur ->
-  exists st', split_run sh batch k limit st (map Write rs ++ [c]) = (st', rs) /\
+  exists st', split_run sh batch k limit false st (map Write rs ++ [c]) = (st', rs) /\
     s_cur st' = None /\ s_done st' = indexed 0 (split_spec_files full cur rs c).
 Proof.
   intros Hcl. induction rs as [|r rs IH]; intros st full cur Hi.
@@ -988,7 +1018,7 @@ Qed.
 
 (* The split writer, fed rs and then closed by c (close / with-exit / del), leaves exactly these files: *)
 Definition split_result (rs : list rec) (c : op) : sstate * list rec :=
-  split_run sh batch k limit (split_init k) (map Write rs ++ [c]).
+  split_run sh batch k limit false (split_init k) (map Write rs ++ [c]).
 Definition split_parts (rs : list rec) : list (list rec) := chunks limit [] rs.
 Definition last_part_ok (rs : list rec) (c : op) : Prop :=
   c = WithExit \/ k <> AStream \/ List.length rs mod limit <> 0.
@@ -1599,7 +1629,7 @@ Proof. revert a. induction l as [|x l IH]; intros a; cbn; [|rewrite IH]; reflexi
 Theorem split_theorem sh batch k limit rs c :
   shapes_ok sh = true -> split_shapes_ok sh = true -> always_accepts k = true -> 0 < limit ->
   is_closing c = true -> last_part_ok k limit rs c ->
-  let res := split_run sh batch k limit (split_init k) (map Write rs ++ [c]) in
+  let res := split_run sh batch k limit false (split_init k) (map Write rs ++ [c]) in
   let files := map snd (split_files (fst res)) in
   let parts := chunks limit [] rs in
   snd res = rs /\
@@ -1651,7 +1681,32 @@ Qed.
 (* the generated facts with one repair undone (for the witnesses of what each repair prevents) *)
 Definition with_avro_unfixed (sh : shapes) : shapes :=
   mkShapes (sh_exit sh) (sh_del sh) true false (sh_avro_close_flushes sh) (sh_stream_close_flushes sh)
-           (sh_split_ge sh) (sh_split_roll sh) (sh_rotate_counter sh).
+           (sh_split_ge sh) (sh_split_roll sh) (sh_rotate_counter sh) (sh_split_stdout_netloc sh) (sh_split_stdout_path sh).
 Definition with_rotation_unfixed (sh : shapes) : shapes :=
   mkShapes (sh_exit sh) (sh_del sh) (sh_avro_flush_placeholder sh) (sh_avro_close_placeholder sh)
-           (sh_avro_close_flushes sh) (sh_stream_close_flushes sh) (sh_split_ge sh) (sh_split_roll sh) false.
+           (sh_avro_close_flushes sh) (sh_stream_close_flushes sh) (sh_split_ge sh) (sh_split_roll sh) false
+           (sh_split_stdout_netloc sh) (sh_split_stdout_path sh).
+
+(* the split theorem for a target given as urlparse(self.path) = (netloc, path): a file target is not taken for stdout *)
+Definition split_concl (sh : shapes) (batch : nat) (k : adapter) (limit : nat) (stdout : bool) (rs : list rec) (c : op) : Prop :=
+  let res := split_run sh batch k limit stdout (split_init k) (map Write rs ++ [c]) in
+  let files := map snd (split_files (fst res)) in
+  let parts := chunks limit [] rs in
+  snd res = rs /\
+  map fst (split_files (fst res)) = seq 0 (List.length parts) /\
+  Forall2 (fun f cs => readable f = Some (expected k cs)) files parts /\
+  List.concat parts = rs /\
+  Forall (fun cs => List.length cs <= limit) parts /\
+  Forall (fun cs => List.length cs = limit) (removelast parts) /\
+  List.length parts = List.length rs / limit + 1 /\
+  (last parts [] = [] <-> List.length rs mod limit = 0) /\
+  (k = AStream -> read_stream (raw_concat files) = Some rs).
+
+Theorem split_theorem_target sh batch k limit netloc path rs c :
+  shapes_ok sh = true -> split_shapes_ok sh = true -> always_accepts k = true -> 0 < limit ->
+  file_target netloc path = true -> is_closing c = true -> last_part_ok k limit rs c ->
+  split_concl sh batch k limit (split_is_stdout sh netloc path) rs c.
+Proof.
+  intros SH SSH ACC LIM Hft Hc Hok. rewrite (file_target_not_stdout sh netloc path SSH Hft).
+  exact (split_theorem sh batch k limit rs c SH SSH ACC LIM Hc Hok).
+Qed.
